@@ -38,6 +38,20 @@ def rename_py(text, suffix="_rn"):
     return ast.unparse(tree) + "\n"
 
 
+class _Yoda(ast.NodeTransformer):
+    def visit_Compare(self, n):
+        self.generic_visit(n)
+        if len(n.ops) == 1 and type(n.ops[0]) in localnames._FLIP and localnames._is_const(n.comparators[0]) \
+                and not localnames._is_const(n.left):
+            return ast.Compare(left=n.comparators[0], ops=[localnames._FLIP[type(n.ops[0])]()], comparators=[n.left])
+        return n
+
+
+def yoda_py(text):
+    """`x > 0` -> `0 < x` for every comparison with a constant"""
+    return ast.unparse(ast.fix_missing_locations(_Yoda().visit(ast.parse(text)))) + "\n"
+
+
 _SKIP = (tokenize.NL, tokenize.COMMENT, tokenize.NEWLINE, tokenize.INDENT, tokenize.DEDENT)
 
 
@@ -81,12 +95,13 @@ def rename_pyx(rel, text, suffix="_rn"):
 
 def variants(ctx):
     """{name: overrides} for the files the property read"""
-    ref, ren = {}, {}
+    ref, ren, yod = {}, {}, {}
     for rel in sorted(ctx.files):
         text = ctx.src(rel).text
         if rel.endswith(".py"):
             ref[rel] = reformat_py(text)
             ren[rel] = rename_py(text)
+            yod[rel] = yoda_py(text)
         elif rel.endswith(".pyx"):
             ren[rel] = rename_pyx(rel, text)
     out = {}
@@ -94,4 +109,6 @@ def variants(ctx):
         out["auto-reformat-all-sources"] = ref
     if ren:
         out["auto-rename-all-locals"] = ren
+    if yod:
+        out["auto-constants-on-the-left"] = yod
     return out
